@@ -565,6 +565,15 @@ fn consume_decl(s: &mut Stream) -> Result<()> {
 // element ::= EmptyElemTag | STag content ETag
 // '<' Name (S Attribute)* S? '>'
 fn parse_element<'input>(s: &mut Stream<'input>, events: &mut impl XmlEvents<'input>) -> Result<()> {
+    if parse_start_tag(s, events)? {
+        parse_content(s, events)?;
+    }
+
+    Ok(())
+}
+
+// Parses a start or an empty-element tag. Returns `true` when the element was left open.
+fn parse_start_tag<'input>(s: &mut Stream<'input>, events: &mut impl XmlEvents<'input>) -> Result<bool> {
     let start = s.pos();
     s.advance(1); // <
     let (prefix, local) = s.consume_qname()?;
@@ -618,11 +627,7 @@ fn parse_element<'input>(s: &mut Stream<'input>, events: &mut impl XmlEvents<'in
         }
     }
 
-    if open {
-        parse_content(s, events)?;
-    }
-
-    Ok(())
+    Ok(open)
 }
 
 // Attribute ::= Name Eq AttValue
@@ -646,6 +651,10 @@ pub fn parse_content<'input>(
     s: &mut Stream<'input>,
     events: &mut impl XmlEvents<'input>,
 ) -> Result<()> {
+    // Number of elements opened by this call that are still open.
+    // Nested elements are tracked here and not via recursion,
+    // so that deeply nested documents cannot exhaust the stack.
+    let mut depth: usize = 0;
     while !s.at_end() {
         match s.curr_byte() {
             Ok(b'<') => match s.next_byte() {
@@ -661,9 +670,16 @@ pub fn parse_content<'input>(
                 Ok(b'?') => parse_pi(s, events)?,
                 Ok(b'/') => {
                     parse_close_element(s, events)?;
-                    break;
+                    if depth == 0 {
+                        break;
+                    }
+                    depth -= 1;
                 }
-                Ok(_) => parse_element(s, events)?,
+                Ok(_) => {
+                    if parse_start_tag(s, events)? {
+                        depth += 1;
+                    }
+                }
                 Err(_) => return Err(Error::UnknownToken(s.gen_text_pos())),
             },
             Ok(_) => parse_text(s, events)?,
